@@ -101,7 +101,7 @@ add("C16", "CH",
     "mode keeps everything and marks exactly the unlisted RPCs/services; unknown and other-version names rejected; a kept "
     "extended-operation RPC keeps the polling method it needs (Compute-style API, both declaration orders, all allow-lists).",
     "DESIGN.md section 5 C16",
-    "3 top-level messages, 6 cross edges, 3 structure variants quick (48 thorough), 3 RPCs in 2 services. The symbolic "
+    "3 top-level messages, 6 cross edges, 3 structure variants quick (24 thorough), 3 RPCs in 2 services. The symbolic "
     "inputs only select the structure: path exploration with exhaustion proved by CrossHair/z3 (weakest solver use, "
     "stated). Rendering/importing the pruned library is outside the claim.")
 
@@ -196,11 +196,16 @@ add("C17", "CH (+ concrete diff)",
     "assembled from symbolic selectors; concrete diff of emitted clients/stubs",
     "Selection clause: for ALL subsets of the three mixin APIs, rule sets, an unrelated rule and an API-defined IAM RPC in "
     "any service the exposed mixin set equals {RPC of a listed API that has a rule}, the clashing IAM RPC is never a mixin, "
-    "and the REST option rows equal the YAML rules. Emitted clients/stubs expose exactly the selected methods with the "
-    "canonical paths for three configurations (concrete).",
+    "and the REST option rows equal the YAML rules. Call clause: for ALL (mixin RPC, request as dict/message, routing value, "
+    "options given/defaulted) the emitted sync/async method dispatches once on its own wrapped method with the standard "
+    "request type, the routing header appended to the caller's metadata and the caller's retry/timeout. Emitted "
+    "clients/stubs expose exactly the selected methods, each dispatching through a unary stub with the canonical path and "
+    "the standard serializer/deserializer, for five configurations (concrete).",
     "DESIGN.md section 5 C17",
     "Rule sets per API from menus (4 x 3 x 3); where the API defines a clashing IAM RPC both readings of 'yield' (per RPC / "
-    "all-or-nothing) are accepted for the non-clashing IAM RPCs. Calling the mixin methods is outside the claim.")
+    "all-or-nothing) are accepted for the non-clashing IAM RPCs. The HTTP request of the REST mixins and everything "
+    "below transport._wrapped_methods are outside the claim; the mixin request classes are the real pb2 classes, "
+    "so the emitted methods run on concretised selectors.")
 
 add("C14", "CH+RX (+ concrete diff)",
     "CrossHair (z3) enumeration with solver-proved exhaustion over the real Snippet segment parser on symbolic marker "
